@@ -5,7 +5,7 @@ from __future__ import annotations
 import ast
 
 from sa.cfg import all_paths_pass, dominators, reachable, reaches, specialize, test_atoms
-from sa.db import AnalysisError, FuncInfo, bind_args, dotted, src, walk_local
+from sa.db import AnalysisError, FuncInfo, ancestors, bind_args, dotted, src, walk_local
 from sa.flow import backward_slice, defs_reaching, reaching_defs
 from sa.model import contains, enclosing, execute_impl_funcs, is_user_func_call, superstep_funcs
 from sa.variants import Variant, chain, replace_once, sub_first, sub_once
@@ -186,7 +186,7 @@ def run(ctx) -> None:
             for n in cfg.nodes:
                 for c in cfg.calls_at(n):
                     if isinstance(c.func, ast.Attribute) and c.func.attr in ("add", "update"):
-                        from sa.db import ancestors
+                        pass
 
                         for lp in [a for a in ancestors(c) if isinstance(a, ast.For)]:
                             for x in ast.walk(lp.iter):
